@@ -792,6 +792,63 @@ func driverSymbolize(c *harness.Ctx, bin string, ef *elf.File, syms []elf.Symbol
 	if err != nil {
 		return "saved profile unparseable: " + err.Error()
 	}
+	// two runs of one non-relocatable executable that loads this position-independent object: the
+	// executable's mapping is the same in both profiles, the object sits at another bias in the second
+	// run; both profiles are given as sources and symbolized after pprof has merged them
+	if ef.Type == elf.ET_DYN {
+		wantN := map[string]int{}
+		profs := map[string]*profile.Profile{}
+		for k, bb := range []uint64{bias, bias + 0x7000000} {
+			rp := &profile.Profile{SampleType: []*profile.ValueType{{Type: "samples", Unit: "count"}}, PeriodType: &profile.ValueType{Type: "cpu", Unit: "nanoseconds"}, Period: 1}
+			rp.Mapping = append(rp.Mapping, &profile.Mapping{ID: 1, Start: 0x400000, Limit: 0x401000, File: "/nonexistent/fixedmain"})
+			for _, ph := range ef.Progs {
+				if ph.Type == elf.PT_LOAD && ph.Flags&elf.PF_X != 0 {
+					rp.Mapping = append(rp.Mapping, &profile.Mapping{ID: uint64(len(rp.Mapping) + 1), Start: bb + (ph.Vaddr &^ (pg - 1)), Limit: bb + ((ph.Vaddr + ph.Filesz + pg - 1) &^ (pg - 1)), Offset: ph.Off &^ (pg - 1), File: bin})
+				}
+			}
+			for _, sy := range syms {
+				if elf.ST_TYPE(sy.Info) != elf.STT_FUNC || (sy.Name != "alpha" && sy.Name != "beta" && sy.Name != "main") || sy.Size == 0 {
+					continue
+				}
+				addr := bb + sy.Value + uint64(k)
+				for _, m := range rp.Mapping[1:] {
+					if addr >= m.Start && addr < m.Limit {
+						l := &profile.Location{ID: uint64(len(rp.Location) + 1), Mapping: m, Address: addr}
+						rp.Location = append(rp.Location, l)
+						rp.Sample = append(rp.Sample, &profile.Sample{Value: []int64{1}, Location: []*profile.Location{l}})
+						wantN[sy.Name]++
+					}
+				}
+			}
+			profs[fmt.Sprintf("run%d", k)] = rp
+		}
+		ui2 := &drv.UI{}
+		bu2 := &binutils.Binutils{}
+		s2 := &drv.Session{Flags: &drv.Flags{Bools: map[string]bool{"proto": true, "addresses": true, "flat": true}, Strs: map[string]string{"output": "out", "symbolize": "local"}, Args: []string{"run0", "run1"}},
+			Fetch: &drv.MapFetcher{Profiles: profs}, Obj: bu2, Sym: &symbolizer.Symbolizer{Obj: bu2, UI: ui2}, UI: ui2}
+		r2 := s2.Run()
+		c.Stat("driver_symbolizations_two_runs", 1)
+		if r2.Panic != "" || r2.Err != nil {
+			return fmt.Sprintf("pprof -symbolize=local -proto over two runs failed: %v %s %v", r2.Err, r2.Panic, ui2.Errs)
+		}
+		q2, err := profile.ParseData(s2.Writer.Files["out"].Bytes())
+		if err != nil {
+			return "saved profile of two runs unparseable: " + err.Error()
+		}
+		gotN := map[string]int{}
+		for _, sm := range q2.Sample {
+			name := "<unsymbolized>"
+			if len(sm.Location) == 1 {
+				if n := len(sm.Location[0].Line); n > 0 && sm.Location[0].Line[n-1].Function != nil {
+					name = sm.Location[0].Line[n-1].Function.Name
+				}
+			}
+			gotN[name] += int(sm.Value[0])
+		}
+		if fmt.Sprint(gotN) != fmt.Sprint(wantN) {
+			return fmt.Sprintf("two runs of one executable with this object at biases %#x and %#x, given as two sources: samples per function after -symbolize=local are %v, the symbol table says %v (ui: %v)", bias, bias+0x7000000, gotN, wantN, ui2.Errs)
+		}
+	}
 	// a leaf sample address is looked up as is; names are compared per location id
 	for _, l := range q.Location {
 		w, ok := want[l.ID]
